@@ -21,7 +21,7 @@ var c12IntLo = new(big.Int).Neg(new(big.Int).Lsh(big.NewInt(1), 255))
 var c12IntHi = new(big.Int).Lsh(big.NewInt(1), 255)
 
 // c12DoWalk counts references by actually walking every evaluation stack and slot of every context.
-func c12DoWalk(v *vm.VM) c12Walk {
+func c12DoWalk(v *vm.VM, extra ...*vm.Stack) c12Walk {
 	var w c12Walk
 	seenStack := map[*vm.Stack]bool{}
 	seenSlot := map[*stackitem.Item]bool{}
@@ -106,6 +106,9 @@ func c12DoWalk(v *vm.VM) c12Walk {
 		}
 	}
 	doStack(v.Estack())
+	for _, st := range extra { // stacks no context uses any more but whose items the counter still holds (finding F57)
+		doStack(st)
+	}
 	for _, c := range v.Istack() {
 		doStack(c.Estack())
 		doSlot(c.ArgumentsSlot())
